@@ -679,8 +679,14 @@ func (u *UlimitsConfig) MarshalJSON() ([]byte, error) {
 	if u.Single != 0 {
 		return json.Marshal(u.Single)
 	}
-	// Pass as a value to avoid re-entering this method and use the default implementation
-	return json.Marshal(*u)
+	// soft and hard are both required by the schema: a zero limit must not be omitted
+	return json.Marshal(struct {
+		Soft int `json:"soft"`
+		Hard int `json:"hard"`
+	}{
+		Soft: u.Soft,
+		Hard: u.Hard,
+	})
 }
 
 // NetworkConfig for a network
